@@ -184,6 +184,7 @@ impl Ctx {
             self.values.push((role.to_string(), v.to_bits()));
         }
     }
+    pub fn extreme_values(&mut self) {}
     pub fn fact(&mut self, role: &str, ok: bool, detail: String) {
         self.rec(role, "fact", ok, detail, 0.0, None);
     }
